@@ -145,6 +145,7 @@ class OperatorTable(Expression):
                 out += BREAK
 
             out += Code('_prec') << RESULT[0]
+            out += Code('_is_conflict') << False
 
             with out.WHILE(operator_stack):
                 out += Code('_top_prec, _top_assoc, _') << operator_stack[-1]
@@ -152,10 +153,16 @@ class OperatorTable(Expression):
                 with out.IF(Code(f'_top_prec < _prec or (_top_prec == _prec and _top_assoc == 1)')):
                     pop_operator()
                 with out.ELIF(Code(f'_top_prec == _prec and _top_assoc == 3')):
+                    # Non-associative operators do not chain: leave this one
+                    # in the input and end the expression.
                     out += (POS << outer_checkpoint)
+                    out += Code('_is_conflict') << True
                     out += BREAK
                 with out.ELSE():
                     out += BREAK
+
+            with out.IF(Code('_is_conflict')):
+                out += BREAK
 
             out += operator_marker << Code(f'len({operator_stack})')
             out += operator_stack.append(RESULT)
